@@ -188,10 +188,14 @@ def random_refine_case(seed):
     for _ in range(rng.randint(2, 7)):
         data += gauss((h, w), rng.uniform(2, w - 2), rng.uniform(2, h - 2), rng.uniform(20, 120), rng.uniform(1.0, 2.6), rng.uniform(1.0, 2.6))
     data += np.random.default_rng(seed).normal(0, rng.choice([0.0, 0.5, 2.0]), (h, w))
+    if rng.random() < 0.4:                 # hot pixels in the wings: islands smaller than npixels inside a parent
+        for _ in range(rng.randint(1, 3)):
+            data[rng.randrange(h), rng.randrange(w)] += rng.uniform(15, 80)
     if rng.random() < 0.3:
         data -= rng.uniform(0, 3)          # non-positive minima -> mode fallback
     npix = rng.choice([1, 2, 3, 5, 8])
     conn = rng.choice([4, 8])
+    quiet = rng.random() < 0.15            # nothing will qualify (area < 2 * npixels) or nothing will split
     with warnings.catch_warnings():
         warnings.simplefilter('ignore')
         segm = detect_sources(data, rng.choice([1.5, 3.0, 6.0]), npixels=npix, connectivity=conn)
@@ -206,7 +210,9 @@ def random_refine_case(seed):
             labels_arg = sorted(rng.sample([int(x) for x in segm.labels], rng.randint(1, segm.nlabels)))
         if rng.random() < 0.35:
             data = data - rng.uniform(1.0, 6.0)     # deblend on differently background-subtracted data: segments hold values <= 0
-        kw = dict(npixels=npix, nlevels=rng.choice([1, 4, 32]), contrast=rng.choice([0, 0.001, 0.05, 0.3, 1]),
+        if quiet:
+            npix = int(max(segm.areas)) // 2 + 1 if rng.random() < 0.5 else npix
+        kw = dict(npixels=npix, nlevels=rng.choice([1, 4, 32]) if not quiet else 1, contrast=rng.choice([0, 0, 0.001, 0.05, 0.3, 1]),
                   mode=rng.choice(['exponential', 'linear', 'sinh']), connectivity=conn, relabel=rng.random() < 0.5)
         before = digest(segm)
         serial = deblend_sources(data, segm, labels=labels_arg, nproc=1, progress_bar=False, **kw)
@@ -216,7 +222,10 @@ def random_refine_case(seed):
         events = []
         V.set_sink(events)
         try:
-            out = run_with_order(list(range(ntasks))[::-1], data, segm, labels=labels_arg, **kw) if ntasks else serial
+            if ntasks:
+                out = run_with_order(list(range(ntasks))[::-1], data, segm, labels=labels_arg, **kw)
+            else:      # nothing qualifies for deblending: the multi-process entry must still give the serial result
+                out = deblend_sources(data, segm, labels=labels_arg, nproc=2, progress_bar=False, **kw)
         finally:
             V.set_sink(None)
         if out is None:
@@ -251,7 +260,7 @@ def run(ctx):
         ctx.assumptions.append(f'{degraded} schedule replays skipped: deblend.ProcessPoolExecutor/as_completed not substitutable (real pools only)')
     pool = core.pmap(real_pool_case, [(10**6 + k, [2, 0, 2, 2], 2 + k % 2, ctx.seed + k) for k in range(2 if q else 6)], procs=2, chunksize=1) \
         if True else []
-    refs = [c for c in core.pmap(random_refine_case, [ctx.seed * 104729 + 5000 + i for i in range(200 if q else 3000)], chunksize=8) if c is not None]
+    refs = [c for c in core.pmap(random_refine_case, [ctx.seed * 104729 + 5000 + i for i in range(400 if q else 4000)], chunksize=8) if c is not None]
     allc = cases + pool + refs
     ver = core.validate_batch(ctx, 'Trace_Deblend', allc, 'Trace:Deblend')
     nontriv = set()
